@@ -178,7 +178,8 @@ func runC18(m *Sim) {
 				if m.C.Chance("len-small", 1, 2) {
 					l = m.C.Int("len", md.maxLine/2+2)
 				}
-				line = fmt.Sprintf("%d:", i) + strings.Repeat("x", l)
+				unit := []string{"x", "é", "世", "\x00"}[m.C.Weighted("charset", 6, 1, 1, 1)]
+				line = fmt.Sprintf("%d:", i) + strings.Repeat(unit, l)
 				line = line[:min(len(line), max(l, 0))]
 				if len(pool) < 40 {
 					pool = append(pool, line)
